@@ -140,6 +140,7 @@ func (e *episode) offer(tx *btc.Tx) string {
 		defer func() {
 			if x := recover(); x != nil {
 				res = "panic"
+				e.poolPanic("HandleNetTx", x, raw)
 			}
 		}()
 		rc := &txpool.TxRcvd{Tx: ntx}
@@ -173,6 +174,7 @@ func (e *episode) offerLocal(tx *btc.Tx) string {
 		defer func() {
 			if x := recover(); x != nil {
 				res = "panic"
+				e.poolPanic("SubmitLocalTx", x, raw)
 			}
 		}()
 		if txpool.SubmitLocalTx(ntx, raw) {
@@ -182,11 +184,23 @@ func (e *episode) offerLocal(tx *btc.Tx) string {
 	return res
 }
 
+// poolPanic: the pool panicked on a transaction handed to it (the history already names the offer). Not a refusal: the
+// client would crash, and — recovered as here — txpool.TxMutex may stay locked (the stall watchdog then ends the run).
+func (e *episode) poolPanic(where string, x interface{}, raw []byte) {
+	e.sawPanic(fmt.Sprint(x))
+	e.r.TieFail("real-pool-panic:"+where, fmt.Sprintf("client/txpool %s panicked on an offered transaction (%d bytes, %d history entries): %v", where, len(raw), len(e.history), x),
+		replayDoc{Kind: "realpool:offer-panic", Opts: e.opts, History: append([]string{}, e.history...), Candidate: hex.EncodeToString(e.k.Build(chainkit.BlockSpec{}))})
+	e.dead = true
+}
+
 // poolState: where the pool holds this txid now.
 func poolState(id *btc.Uint256) string {
 	txpool.TxMutex.Lock()
 	defer txpool.TxMutex.Unlock()
-	if _, ok := txpool.TransactionsToSend[id.BIdx()]; ok {
+	if t, ok := txpool.TransactionsToSend[id.BIdx()]; ok {
+		if t.Local {
+			return "pooled-local" // the operator's own submission: scripts NOT verified by the pool
+		}
 		return "pooled"
 	}
 	if r, ok := txpool.TransactionsRejected[id.BIdx()]; ok {
@@ -266,7 +280,7 @@ func (e *episode) offerRound(n int) {
 	g := e.g
 	busy := map[btc.TxPrevOut]bool{}
 	for _, p := range e.ptxs {
-		if poolState(&p.tx.Hash) == "pooled" {
+		if hasPrefix(poolState(&p.tx.Hash), "pooled") {
 			for _, c := range p.ins {
 				busy[c.Out] = true
 			}
@@ -469,6 +483,9 @@ func (e *episode) poolCandidate(want, state string) ([]byte, string) {
 		done := false
 		for _, i := range order {
 			p := live[i]
+			if e.focus != nil && p != e.focus {
+				continue
+			}
 			if len(state) > 0 && !hasPrefix(poolState(&p.tx.Hash), state) {
 				continue
 			}
@@ -483,6 +500,9 @@ func (e *episode) poolCandidate(want, state string) ([]byte, string) {
 	}
 	hadBad := want == "bad-witness"
 	for _, i := range order {
+		if e.focus != nil {
+			break // localSweep: the candidate is about this one transaction alone
+		}
 		if len(txs) >= 1+g.Intn(4) {
 			break
 		}
@@ -505,7 +525,7 @@ func (e *episode) poolCandidate(want, state string) ([]byte, string) {
 	}
 	// parents before children
 	txs = parentsFirst(txs)
-	if g.Chance(1, 3) { // and one the pool has never seen
+	if e.focus == nil && g.Chance(1, 3) { // and one the pool has never seen
 		if c := e.pick(notIn(used, nil)); c != nil {
 			used[c.Out] = true
 			f := uint64(g.Intn(3000))
@@ -552,15 +572,65 @@ func (e *episode) vouchReal(c *cand) {
 	c.vouch = make([]bool, len(c.txs))
 	for ti := 1; ti < len(c.txs); ti++ {
 		func() {
-			defer func() { recover() }()
+			defer func() {
+				if x := recover(); x != nil {
+					// commitTxs calls the hook on its own goroutine's stack: a panic there is a panic of AcceptBlock (reported by
+					// judge as accept-panic when the real run reaches it); here the answer the model is told is unknown
+					e.sawPanic(fmt.Sprint(x))
+					e.r.Hit("realpool:HOOK-PANICKED")
+					e.r.TieFail("real-pool-hook-panic", fmt.Sprintf("client/txpool's txChecker panicked on transaction %d of a candidate: %v", ti, x),
+						replayDoc{Kind: "realpool:hook-panic", Opts: e.opts, History: append([]string{}, e.history...), Candidate: hex.EncodeToString(c.raw)})
+				}
+			}()
 			c.vouch[ti] = realTxChecker(c.txs[ti])
 		}()
+		e.hookTie(c, ti)
 		if c.vouch[ti] {
 			e.r.Hit("realpool:hook-vouches:" + poolState(&c.txs[ti].Hash))
 			if !c.honest(ti) {
 				e.r.Hit("realpool:HOOK-VOUCHES-FOR-A-FAILING-SCRIPT")
 			}
 		}
+	}
+}
+
+// hookTie compares client/txpool's txChecker with the Lean model of it (Model/ConnectCache.cacheSays — the function the
+// theorem real_pool_hook_is_honest is about; oracle op `hook`): the harness reads the pool's own maps for the entry filed
+// under the transaction's txid (state, Local, witness hash) and asks the model what the hook says for this transaction.
+func (e *episode) hookTie(c *cand, ti int) {
+	tx := c.txs[ti]
+	state, local := "none", "0"
+	var zero [32]byte
+	ew := zero[:]
+	txpool.TxMutex.Lock()
+	if t, ok := txpool.TransactionsToSend[tx.Hash.BIdx()]; ok {
+		state = "tosend"
+		if t.Local {
+			local = "1"
+		}
+		ew = append([]byte{}, t.WTxID().Hash[:]...)
+	} else if r, ok := txpool.TransactionsRejected[tx.Hash.BIdx()]; ok {
+		state = "rejected"
+		if r.Reason == txpool.TX_REJECTED_REPLACED {
+			state = "replaced"
+		}
+		if r.Tx != nil {
+			ew = append([]byte{}, r.Tx.WTxID().Hash[:]...)
+		}
+	}
+	txpool.TxMutex.Unlock()
+	tw := tx.WTxID().Hash[:]
+	rep := e.o.MustAsk(fmt.Sprintf("hook %s %s %s %s %s", state, local, vlib.Hex(tx.Hash.Hash[:]), vlib.Hex(ew), vlib.Hex(tw)))
+	same := "other-witness"
+	if bytes.Equal(ew, tw) {
+		same = "same-witness"
+	}
+	e.r.Hit("realpool:hook-tie:" + state + ":local=" + local + ":" + same + "=" + rep)
+	if rep != b2i(c.vouch[ti]) {
+		e.r.TieFail("model-hook:"+state+":local="+local+":"+same, fmt.Sprintf("client/txpool's txChecker answers %v for a transaction whose txid the pool holds as %s (Local=%s, %s); the Lean model of the hook (cacheSays) answers %s", c.vouch[ti], state, local, same, rep),
+			replayDoc{Kind: "realpool:hook-tie", Opts: e.opts, History: append([]string{}, e.history...), Candidate: hex.EncodeToString(c.raw)})
+	} else {
+		e.r.TieOK()
 	}
 }
 
@@ -582,6 +652,82 @@ func (e *episode) realPoolSweep() {
 	}
 }
 
+// localSweep (corpus part, deterministic at every seed): the operator's own submissions. SubmitLocalTx pools a
+// transaction WITHOUT verifying its scripts and marks the entry Local; txChecker must never vouch for such an entry,
+// whatever the witness hash says. Four candidates:
+//
+//	L1  a Local entry whose witness FAILS, mined exactly as pooled (same wtxid)   → must be refused (scripts run)
+//	L2  a Local entry whose witness verifies, mined exactly as pooled             → valid; the hook must still say no
+//	L3  the same txid as L2 under a witness that fails                            → refused
+//	L4  the same txid as L1 under its good witness (the pooled copy is the bad one) → valid
+func (e *episode) localSweep() {
+	if e.opts.NoSegWit {
+		return
+	}
+	mk := func() *ptx {
+		busy := map[btc.TxPrevOut]bool{}
+		for _, p := range e.ptxs {
+			for _, c := range p.ins {
+				busy[c.Out] = true
+			}
+		}
+		c := e.pick(notIn(busy, func(w *wcoin) bool { return segwitSpend(w) && w.mine != "p2wsh-any" }))
+		if c == nil {
+			c = e.pick(notIn(busy, segwitSpend))
+		}
+		if c == nil {
+			return nil
+		}
+		return e.poolTx([]*wcoin{c}, uint64(2000+e.g.Intn(3000)))
+	}
+	run := func(name string, p *ptx, variant string) {
+		if e.dead || p == nil {
+			e.r.Hit("no-material:realpool-local-sweep:" + name)
+			return
+		}
+		e.focus = p
+		raw, tag := e.poolCandidate(variant, "")
+		e.focus = nil
+		if raw == nil {
+			e.r.Hit("no-material:realpool-local-sweep:" + name)
+			return
+		}
+		e.r.Hit("realpool:local-sweep:" + name + ":" + tag)
+		e.judge("realpool:"+tag, raw, true)
+	}
+	// L1 / L4: the pooled copy carries the failing witness
+	if good := mk(); good != nil {
+		if bad := e.witnessVariant(good.tx, false); bad != nil {
+			st := e.offerLocal(bad)
+			e.r.Hit("realpool:local-submission-with-failing-witness:" + st)
+			if st == "accepted" && poolState(&bad.Hash) == "pooled-local" {
+				p := &ptx{tx: bad, ins: good.ins, fee: good.fee, result: "local"}
+				e.ptxs = append(e.ptxs, p)
+				// L4 first (it does not confirm the coin when refused … it is valid: mined, the entry leaves the pool) — so L1 first
+				run("L1-failing-local-as-pooled", p, "as-is")
+				if !e.dead && e.unspentIns(p) {
+					q := &ptx{tx: good.tx, ins: good.ins, fee: good.fee, result: "local-good-twin"}
+					e.ptxs = append(e.ptxs, q)
+					run("L4-good-twin-of-failing-local", q, "as-is")
+				}
+			}
+		}
+	}
+	// L2 / L3: the pooled copy verifies
+	if p := mk(); p != nil {
+		st := e.offerLocal(p.tx)
+		e.r.Hit("realpool:local-submission:" + st)
+		if st == "accepted" && poolState(&p.tx.Hash) == "pooled-local" {
+			p.result = "local"
+			e.ptxs = append(e.ptxs, p)
+			run("L3-valid-local-under-failing-witness", p, "bad-witness")
+			if !e.dead && e.unspentIns(p) {
+				run("L2-valid-local-as-pooled", p, "as-is")
+			}
+		}
+	}
+}
+
 func runRealPoolEpisode(r *Run, o *vlib.Oracle, ep int, g *vlib.Rng, opts epOpts) {
 	e := newEpisode(r, o, g, opts)
 	defer e.close()
@@ -590,6 +736,7 @@ func runRealPoolEpisode(r *Run, o *vlib.Oracle, ep int, g *vlib.Rng, opts epOpts
 	e.fundPool()
 	e.grow(1)
 	e.realPoolSweep()
+	e.localSweep()
 	ks := kinds()
 	for s, steps := 0, r.N(14, 40); s < steps && !e.dead; s++ {
 		e.offerRound(1 + g.Intn(3))
